@@ -29,13 +29,15 @@
    Properties/C09.v).
    With use_replace AND text_tags the full statement is FALSE (C08_total_clean_refuted, open finding
    "use_replace-with-text_tags").  With text_tags and formatting_tags WITHOUT use_replace it is FALSE as well
-   (C08_texttags_refuted, open finding "identical-formatting-elements-cross").  Not covered by a theorem: text_tags <> []
-   outside those findings (correspondence + oracle only). *)
+   (C08_texttags_refuted, open finding "identical-formatting-elements-cross").  With text tags, proved only: one text
+   update (_make_diff_tags, hence _realign_placeholders and its assert) returns under the premise `apart` that excludes
+   that finding (C08_texttag_update_total_partial); NOT proved with text tags: that finalize returns (witness (B) of the
+   finding fails there) and that the output is clean -- correspondence + oracle only. *)
 From Coq Require Import List NArith ZArith Bool.
 Import ListNotations.
 Require Import XV.Str XV.Json XV.TextFormat XV.Forest XV.Matcher XV.Differ XV.Spec XV.Path XV.WF XV.PathProofs XV.Render
                XV.XmlFmt XV.Projections XV.XmlFmtProofs1 XV.XmlFmtProofs2 XV.XmlFmtProofsR2 XV.XmlFmtProofs3 XV.XmlFmtProofs4 XV.XmlFmtProofs5
-               XV.XmlFmtProofs9 XV.XmlFmtProofsB XV.XmlFmtProofsC.
+               XV.XmlFmtProofs9 XV.XmlFmtProofsB XV.XmlFmtProofsC XV.XmlFmtProofsT1 XV.XmlFmtProofsT3.
 Require XV.Placeholder XV.PlaceholderUndo XV.DMP XV.DMPTotalMain XV.DMPBisect5.
 Local Open Scope N_scope.
 
@@ -148,6 +150,29 @@ Proof.
     vm_compute. auto.
 Qed.
 Print Assumptions C08_texttags_refuted.
+
+(* WITH text tags (use_replace = false): one text update returns -- no AssertionError from _realign_placeholders, no
+   KeyError from mark_diff -- under the premise that excludes the finding above:
+     apart cls l r     if the OPEN placeholder of a formatting element occurs in the NEW text r, its CLOSE placeholder does
+                       not occur in the OLD text l (no formatting element starts in the new text and ends in the old one;
+                       implied by: no formatting element, by serialisation, occurs in both texts);
+     wf_open / wf_cls  every OPEN entry of the maker has a close placeholder, and it is a CLOSE entry; 32 is no placeholder.
+   Witness (A) of C08_texttags_refuted violates `apart`.  finalize is NOT covered. *)
+Theorem C08_texttag_update_total_partial :
+  forall (c : cfg) (o : oracle) (s : Placeholder.state) (left right : str) (in_tail : bool),
+  c_replace c = false -> wf_open (cls_of s) -> DMP.wf_cls (cls_of s) -> cls_of s 32 = None ->
+  apart (cls_of s) left right ->
+  exists r, make_diff_tags c o s left right in_tail = FOk r.
+Proof. exact make_diff_tags_total_tt. Qed.
+Print Assumptions C08_texttag_update_total_partial.
+
+(* non-vacuity: a maker with one formatting pair, a<b>x</b> -> ax *)
+Example C08_texttag_update_example :
+  (wf_open (cls_of ex3_s) /\ DMP.wf_cls (cls_of ex3_s) /\ cls_of ex3_s 32 = None /\
+   apart (cls_of ex3_s) [97; 57352; 120; 57351] [97; 120]) /\
+  exists r, make_diff_tags ex3_cfg ex_o ex3_s [97; 57352; 120; 57351] [97; 120] false = FOk r.
+Proof. exact (conj ex3_premises ex3_total). Qed.
+Print Assumptions C08_texttag_update_example.
 
 (* Non-vacuity of the partial theorem: the example of Properties/C09.v *)
 Definition exL : forest := mk_forest [(0%nat, [1%nat; 2%nat])]
